@@ -151,7 +151,13 @@ class _DB:
         from mwlib.network import siteinfo
         self.nshandler = nshandling.NsHandler(siteinfo.get_siteinfo("en"))
 
+    templates = {}       # title -> text (template universes with cycles)
+
     def normalize_and_get_page(self, title, defaultns):
+        ns, partial, full = self.nshandler.splitname(title, defaultns)
+        if ns == 10 and partial in self.templates:
+            from contracts.docs import Page
+            return Page(self.templates[partial])
         return None
 
     def get_url(self, *a, **k):
@@ -175,18 +181,33 @@ def replay_magic(name, args=""):
 
 
 # ---------------------------------------------------------------------------- bounded stand-in: every registered name x 0..3 args x shapes
-SHAPES = ["", "word", "0", "7", "-3", "99999999999", "1.5", "1e9", "1e999999999", "a/b/c", "{{lc:X}}"]
+SHAPES = ["", "word", "0", "7", "-3", "99999999999", "1.5", "1e9", "1e999999999", "a/b/c", "{{lc:X}}", "1e999", "nan", "-inf", "1" * 400]
+
+
+class _NotTerminated(BaseException):
+    pass
+
+
+def _watchdog(signum, frame):
+    raise _NotTerminated()
 
 
 def _one(txt):
-    import logging, time
+    import logging, signal, time
     logging.disable(logging.CRITICAL)
     from mwlib.parser.expander import Expander
     t = time.process_time()
+    old = signal.signal(signal.SIGALRM, _watchdog)
+    signal.setitimer(signal.ITIMER_REAL, 10.0, 1.0)     # repeating: a swallowed alarm comes again
     try:
         out = Expander(txt, pagename="Some/Page", wikidb=_DB()).expandTemplates()
+    except _NotTerminated:
+        return txt, "not finished after 10 s"
     except BaseException as e:  # noqa: BLE001
         return txt, f"raised {type(e).__name__}: {e}"[:200]
+    finally:
+        signal.setitimer(signal.ITIMER_REAL, 0)
+        signal.signal(signal.SIGALRM, old)
     dt = time.process_time() - t
     if not isinstance(out, str):
         return txt, f"returned {type(out).__name__}"
@@ -203,6 +224,10 @@ def bounded(chk):
     from mwlib.parser.templ import magics
     r = magics.MagicResolver(pagename="X")
     names = sorted(n for n in dir(r) if n == n.upper() and not n.startswith("_"))
+    # parser functions implemented as node classes are registered in a second table
+    import mwlib.parser.expander  # noqa: F401 - resolves the import cycle of the templ package
+    from mwlib.parser.templ import magic_nodes
+    names = sorted(set(names) | {k.upper() for k in magic_nodes.registry})
     maxargs = 2 if chk.tier == "quick" else 3
     cases = []
     for n in names:
@@ -218,6 +243,16 @@ def bounded(chk):
         for date in ("", "2001-01-01", "5000", "0", "99999", "9999-12-31", "12:00", "-1"):
             for fmt in (code, "xr" + code):
                 cases.append("{{#time:" + fmt + ("|" + date if date else "") + "}}")
+    # cycles that pass through the arguments of a parser function twice per round: the recursion guard must unwind
+    # to the outermost call (a function that swallows it turns the cycle into exponential work)
+    cyc = {}
+    for n_ in names:
+        nm = n_.lower()
+        if nm.startswith("#") or nm in ("lc", "uc", "padleft", "urlencode", "ns", "formatnum", "plural", "fullurl"):
+            key = "Cyc" + "".join(ch for ch in nm if ch.isalnum())
+            cyc[key] = "{{" + nm + ":{{" + key + "}}|{{" + key + "}}|{{" + key + "}}}}"
+            cases.append("{{" + key + "}}")
+    _DB.templates = cyc
     # template universes with cycles are part of the thorough tier only
     failures = []
     with ProcessPoolExecutor(max_workers=12) as pool:
@@ -229,7 +264,7 @@ def bounded(chk):
     for f in failures:
         dedup.setdefault(f["class"], f)
     chk.bounded_result("every_registered_name_x_args", len(cases), len(cases), True,
-                       f"{len(names)} registered names (built-in and dummy) x 0..{maxargs} arguments x {len(SHAPES)} shapes; contract: returns str, cpu <= 2 s, len(out) <= 1e4*(1+len(in))",
+                       f"{len(names)} registered names (built-in and dummy) x 0..{maxargs} arguments x {len(SHAPES)} shapes, every #time format code, and for every parser function a template that includes itself through three of that function's arguments; contract: returns str, cpu <= 2 s, len(out) <= 1e4*(1+len(in))",
                        list(dedup.values()), cases[:3] + cases[-2:])
 
 
@@ -416,6 +451,37 @@ def p4_recursion_transparency(chk):
             else:
                 chk.static(f"magics.{cls.name}.{fn.name}.lazy_arguments_outside_catch_all", True, "")
     chk.static("magics.functions_scanned", n_funcs >= 15, f"{n_funcs} magic / parser functions taking an argument list")
+    # parser functions implemented as node classes (magic_nodes.py): their flatten methods expand the arguments
+    # themselves (evaluate.flatten / <node>.flatten); such a call must not sit - directly or through a helper method
+    # of the class - inside a catch-all handler
+    mn = source.module("mwlib/parser/templ/magic_nodes.py")
+    n_cls = 0
+    for cls in [n for n in mn.tree.body if isinstance(n, ast.ClassDef)]:
+        methods = {f.name: f for f in cls.body if isinstance(f, ast.FunctionDef)}
+
+        def expands(node, seen=()):
+            for n in ast.walk(node):
+                if isinstance(n, ast.Call) and isinstance(n.func, ast.Attribute):
+                    if n.func.attr == "flatten":
+                        return True
+                    if isinstance(n.func.value, ast.Name) and n.func.value.id == "self" and n.func.attr in methods and n.func.attr not in seen:
+                        if expands(methods[n.func.attr], seen + (n.func.attr,)):
+                            return True
+            return False
+        bad = []
+        for f in methods.values():
+            for t in ast.walk(f):
+                if isinstance(t, ast.Try) and any(h.type is None or (isinstance(h.type, ast.Name) and h.type.id in ("Exception", "BaseException")) or
+                                                  (isinstance(h.type, ast.Tuple) and any(isinstance(e, ast.Name) and e.id in ("Exception", "BaseException") for e in h.type.elts))
+                                                  for h in t.handlers):
+                    if any(expands(st) for st in t.body):
+                        bad.append(f"{cls.name}.{f.name} line {t.lineno}")
+        if "flatten" in methods:
+            n_cls += 1
+            chk.static(f"magic_nodes.{cls.name}.argument_expansion_outside_catch_all", not bad,
+                       f"argument expansion inside `except Exception`: {bad}: a TemplateRecursion raised by the argument is swallowed" if bad else "",
+                       {"class": cls.name, "sites": bad} if bad else None, cls.name, None)
+    chk.static("magic_nodes.classes_scanned", n_cls >= 8, f"{n_cls} node classes with a flatten method")
 
 
 def replay_cycle(fname):
